@@ -143,6 +143,7 @@ def c08(rep, env):
     def f(fb):
         BC.check_definition(rep, fb)
         BC.check_chunking(rep, fb)
+        BC.check_chunking_long(rep, fb)
         BM.check_definition(rep, fb, crates={"ofb"})
         # how a byte string is cut decides which blocks go through the parallel body: it must agree
         # with the one-block kernel
@@ -271,7 +272,7 @@ REGISTRY = {
     "C05": {"run": c05, "level": "proof", "floors": {"cts.layout": 72, "cts.gate.exact": 12, "helpers.one-block": 4}},
     "C06": {"run": c06, "level": "proof", "floors": {"belt.init": 1, "belt.ks.block": 1, "par.closed-form": 2}},
     "C07": {"run": c07, "level": "proof", "floors": {"par.no-override": 11, "par.closed-form": 18, "helpers.par-group": 7}},
-    "C08": {"run": c08, "level": "proof", "floors": {"buf.def": 12, "buf.chunk": 6, "def.out": 3, "ctr.ks.block": 6, "belt.ks.block": 1, "alias.wrapper": 8}},
+    "C08": {"run": c08, "level": "proof", "floors": {"buf.def": 12, "buf.chunk": 14, "def.out": 3, "ctr.ks.block": 6, "belt.ks.block": 1, "alias.wrapper": 8}},
     "C09": {"run": c09, "level": "proof", "floors": {"ivstate.export-public": 12, "ivstate.resume": 14, "ctr.resume": 6, "buf.state": 4}},
     "C10": {"run": c10, "level": "proof", "floors": {"pos.get": 7, "pos.set": 7, "pos.counter-type": 7, "pos.core": 12}},
     "C11": {"run": c11, "level": "other", "floors": {"rem.exact": 7, "ctr.ks.advance": 6, "belt.ks.advance": 1, "wrapper.check-dominates": 3, "rem.ofb-unbounded": 1}},
